@@ -114,6 +114,18 @@ func FamilyDraft7(ts TmplSpec, pairs bool) []*Skeleton {
 	add("remote.sub-noschema", J{"$schema": d7https, "$id": "http://h/root.json", "properties": J{"a": J{"$ref": "remote-no.json"}}}, u)
 	add("remote.sub-withschema", J{"$schema": d7http, "$id": "http://h/root.json", "properties": J{"a": J{"$ref": "remote-with.json"}}, "additionalProperties": J{"$ref": "remote-no.json"}}, u)
 	add("remote.items-refsib", J{"$schema": d7http, "$id": "http://h/root.json", "items": J{"$ref": "remote-refsib.json"}}, u)
+	// chains of $schema-less documents and fragment-$id anchors / $id beside $ref inside them:
+	// every document loaded through $ref without its own $schema is read under the root's draft
+	anchorDoc := `{"definitions":{"d":{"$id":"#foo","type":"integer"}},"$ref":"#foo"}`
+	idRefDoc := `{"definitions":{"d":{"type":"integer"}},"properties":{"p":{"$id":"http://elsewhere/x.json","$ref":"#/definitions/d"}}}`
+	hopDoc := func(target string) string { return `{"$ref":"` + target + `"}` }
+	uc := map[string]string{"http://h/anchor.json": anchorDoc, "http://h/idref.json": idRefDoc, "http://h/hop-anchor.json": hopDoc("anchor.json"), "http://h/hop-idref.json": hopDoc("idref.json"), "http://h/hop2.json": hopDoc("hop-anchor.json")}
+	add("remote.root-anchor", J{"$schema": d7http, "$id": "http://h/root.json", "$ref": "anchor.json"}, uc)
+	add("remote.sub-anchor", J{"$schema": d7https, "$id": "http://h/root.json", "properties": J{"a": J{"$ref": "anchor.json"}}}, uc)
+	add("remote.sub-idref", J{"$schema": d7http, "$id": "http://h/root.json", "items": J{"$ref": "idref.json"}}, uc)
+	add("remote.chain-anchor", J{"$schema": d7http, "$id": "http://h/root.json", "$ref": "hop-anchor.json"}, uc)
+	add("remote.chain-idref", J{"$schema": d7https, "$id": "http://h/root.json", "$ref": "hop-idref.json"}, uc)
+	add("remote.chain3-anchor", J{"$schema": d7http, "$id": "http://h/root.json", "properties": J{"a": J{"$ref": "hop2.json"}}}, uc)
 	add("remote.anyOf", J{"$schema": d7http, "$id": "http://h/root.json", "anyOf": A{J{"$ref": "remote-with.json"}, J{"$ref": "remote-refsib.json"}}}, u)
 	return out
 }
@@ -332,6 +344,15 @@ func FamilyRef(thorough bool, seed int64) []*Skeleton {
 		}
 		u1 := map[string]string{rel("remote.json"): `{"$anchor":"ra","const":30,"$defs":{"in":{"const":31}}}`}
 		mk("remote-basic", root, J{}, map[string]string{"r": "remote.json", "ra": "remote.json#ra", "rp": "remote.json#/$defs/in", "again": "./remote.json"}, u1, false)
+		// absolute references with dot segments are normalised like relative ones (RFC 3986 5.2.2)
+		if u := refsem.ParseURI(rbase); u.HasAuthority {
+			dots := u.Scheme + "://" + u.Authority + "/nowhere/.." + rel("remote.json")[len(u.Scheme+"://"+u.Authority):]
+			mk("remote-absolute-dots", root, J{}, map[string]string{"r": dots, "ra": dots + "#ra"}, u1, false)
+			emb := J{"$id": "sub/x.json", "const": 12}
+			embAbs := refsem.Resolve(refsem.ParseURI(rbase), refsem.ParseURI("sub/x.json")).String()
+			eu := refsem.ParseURI(embAbs)
+			mk("embedded-absolute-dots", root, J{"$defs": J{"e": emb}}, map[string]string{"d": eu.Scheme + "://" + eu.Authority + "/a/./../" + eu.Path[1:]}, nil, false)
+		}
 		mk("remote-missing", root, J{}, map[string]string{"r": "nowhere.json"}, u1, false)
 		mk("remote-missing-anchor", root, J{}, map[string]string{"r": "remote.json#zz"}, u1, false)
 		// chain a -> b
